@@ -248,6 +248,9 @@ def _discard_path(ctx):
                       "%s runs the cleanup stored in a buffered command directly (%s) instead of aborting the command through the abort helper (setup then cleanup)"
                       % (lib.fkey(body), lib.origin_str(direct)))
     ctx.floor("C05.d", nrun, 2, "sites that run a SystemCommandCleanup")
+    import writers
+    nwc = writers.check(ctx, "C05.c", ["DataEntityCounter"])
+    ctx.notes.append("who-writes table: %d payload counter fields with pinned writers checked" % nwc)
     # a postponed run releases the payload it was scheduled for, not a later one: the event trackers hand pending entries
     # out in arrival order (shared with C03.e) - otherwise a payload is dropped while its own reader has yet to run
     import c03
